@@ -9,6 +9,7 @@ package c08
 import (
 	"encoding/json"
 	"fmt"
+	"os"
 	"regexp"
 	"strings"
 
@@ -38,9 +39,13 @@ type scen struct {
 	p     prefix
 	s     suffix
 	bound int
+	lagMs int // a held goroutine of the emulator may lag this far behind in virtual time (0: the default 150 ms)
 }
 
 func (c scen) name() string {
+	if c.lagMs > 0 {
+		return fmt.Sprintf("ext=%d prefix=%s suffix=%s lag<=%dms B=%d", c.next, c.p.name, c.s.name, c.lagMs, c.bound)
+	}
 	return fmt.Sprintf("ext=%d prefix=%s suffix=%s B=%d", c.next, c.p.name, c.s.name, c.bound)
 }
 
@@ -208,7 +213,11 @@ func (c scen) run(ctx *hx.Ctx) *hx.ScenarioResult {
 		}
 		return firstLine(got), w.Render(false), fail
 	}
-	return hx.ExploreScenario(ctx, "C08", c.name(), sched.Options{Bound: c.bound, MaxSteps: 150000, BoundAll: true, NoEarlyClock: true}, c.body(cfg, true, c.bound > 0), judge)
+	lag := int64(150e6)
+	if c.lagMs > 0 {
+		lag = int64(c.lagMs) * 1e6
+	}
+	return hx.ExploreScenario(ctx, "C08", c.name(), sched.Options{Bound: c.bound, MaxSteps: 150000, BoundAll: true, NoEarlyClock: true, HoldBack: true, HoldLagNs: lag}, c.body(cfg, true, c.bound > 0), judge)
 }
 
 var reasonRe = regexp.MustCompile(`shutdownReason\\":\\"[A-Za-z]*`)
@@ -325,6 +334,14 @@ func init() {
 					continue
 				}
 				add(scen{next: next, p: p, s: suffixes(next)[0], bound: lb})
+			}
+		}
+		// one goroutine of the emulator lagging behind by more than the function timeout (3 s) and the reaping grace (2 s)
+		if os.Getenv("VERIF_SLOWGO") != "" {
+			for next := 0; next <= 1; next++ {
+				for _, pi := range []int{4, 6, 8} {
+					add(scen{next: next, p: prefixes(next)[pi], s: suffixes(next)[0], bound: 1, lagMs: 6000})
+				}
 			}
 		}
 		// the ghost of an old extension, moved around by deviations
